@@ -1,6 +1,8 @@
 """C15 - inbound admin calls outside the allow-list never reach the local cluster.
 Proof: coq/properties/C15.v.  Correspondence: exhaustive end-to-end matrix through a running ClusterConnection."""
 from .. import linediff as L
+import os
+
 from .. import vfcore as V
 
 PROP = "C15"
@@ -50,15 +52,38 @@ def build(tier, rng, ms):
         for m in ms:
             full, stream = m[0], m[3]
             k += 1
-            impl.append("CALL side=remote method=%s bypass=%d" % (full, k % 2))
-            model.append("Q %s %s %s -" % (svc_of(full), full.rsplit("/", 1)[1], stream))
-            meta.append((tr, pol, full, stream, "remote"))
+            # caller-supplied metadata: none / the translation-bypass header / the proxy's own intra-proxy marker and
+            # tracing headers (names read from the source) / all of them; streaming methods get every variant
+            for hv in (range(4) if stream == "1" else (k % 4,)):
+                impl.append("CALL side=remote method=%s bypass=%d hdrs=%s" % (full, 1 if hv in (1, 3) else 0, special_headers() if hv >= 2 else "-"))
+                model.append("Q %s %s %s -" % (svc_of(full), full.rsplit("/", 1)[1], stream))
+                meta.append((tr, pol, full, stream, "remote"))
         # the local-facing server of the same connection carries no policy
         for m in ms[::9]:
             impl.append("CALL side=local method=%s" % m[0])
             model.append("Q other %s %s -" % (m[0].rsplit("/", 1)[1], m[3]))
             meta.append((tr, pol, m[0], m[3], "local"))
     return impl, model, meta, len(cfgs)
+
+
+_SPECIAL = None
+
+
+def special_headers():
+    """metadata keys the proxy itself gives a meaning to, read from the source (common/*.go string constants)"""
+    global _SPECIAL
+    if _SPECIAL is None:
+        import glob
+        import re
+        names = []
+        for fn in sorted(glob.glob(os.path.join(V.REPO, "common", "*.go"))):
+            if fn.endswith("_test.go"):
+                continue
+            for m in re.finditer(r'=\s*"(x-s2s-[a-z0-9-]+)"', open(fn).read()):
+                if m.group(1) not in names:
+                    names.append(m.group(1))
+        _SPECIAL = ";".join("%s:1" % n for n in names) or "-"
+    return _SPECIAL
 
 
 def check(tier, seed):
